@@ -164,6 +164,9 @@ func (db *RockDB) BitSetV2(ts int64, key []byte, offset int64, on int) (int64, e
 		return 0, err
 	}
 	if !ok {
+		// an absent or expired bitmap starts empty: the size of the expired generation must not be
+		// handed on to the new one (it also made the size check of the conversion below panic)
+		bmSize = 0
 		// convert old data to new
 		table, oldkey, err := convertRedisKeyToDBKVKey(key)
 		if err != nil {
